@@ -45,16 +45,62 @@ def decVal (ds : Bytes) : Nat := decValAcc 0 ds
 
 def AllDigits (ds : Bytes) : Prop := ∀ c ∈ ds, isDigit c = true
 
-/-- Text model of fmt's `'{:.16}'` (= `printf("%.16g")`) applied to a double whose value is the integer `n`, `|n| < 10^15`: with at most
-15 significant digits `%g` uses neither an exponent nor a decimal point, so the text is the plain decimal numeral, `-` first for negatives.
-Tied to the real writer on every run: the check compares the token the real `WriteSolFile` printed for every integral real `|x| < 10^15`
-of the run with `encIntegralReal x` (driver field `ints=`).  (`-0.0` prints `-0`; it is the one integral real outside this model.) -/
-def encIntegralReal (n : Int) : Bytes := encInt n
+def stripZeros (ds : Bytes) : Bytes := (ds.reverse.dropWhile (· == 48)).reverse
+
+/-- Text model of `printf("%.16g")` (which mp's fmt calls for `'{:.16}'`) applied to a double whose exact value is the natural number `n` — any size:
+* at most 16 decimal digits: precision 16 covers them all, `%g` uses neither an exponent nor a decimal point: the plain numeral;
+* more: scientific notation — the digit string rounded to 16 significant digits (exact value, ties to even: glibc in the default rounding mode), trailing zeros
+  of the mantissa removed, `d[.d…]e+XX` with at least two exponent digits.
+This is a definition, not a theorem about fmt; it is tied to the real writer by sampling only: the driver evaluates it on every integral real of every
+case (below and above the switch at 10^16) and the check compares it with the token in the file the real `WriteSolFile` wrote (field `intok`). -/
+def fmtG16Nat (n : Nat) : Bytes :=
+  let ds := encNat n
+  if ds.length ≤ 16 then ds else
+    let head := decVal (ds.take 16)
+    let tail := ds.drop 16
+    let tv := decVal tail
+    let half := 5 * 10 ^ (tail.length - 1)
+    let m0 := if tv > half ∨ (tv = half ∧ head % 2 = 1) then head + 1 else head
+    let m := if m0 = 10 ^ 16 then 10 ^ 15 else m0
+    let e := if m0 = 10 ^ 16 then ds.length else ds.length - 1
+    let md := encNat m
+    let frac := stripZeros (md.drop 1)
+    md.take 1 ++ (if frac = [] then [] else 46 :: frac) ++ [101, 43] ++ (if e < 10 then 48 :: encNat e else encNat e)
+
+/-- `%.16g` of a double whose value is the integer `n` (`-0.0` prints `-0`; it is the one integral real outside this model) -/
+def fmtG16Int (n : Int) : Bytes := if n < 0 then 45 :: fmtG16Nat n.natAbs else fmtG16Nat n.natAbs
+
+/-- the text the writer prints for an integral real (kept under its round-5 name) -/
+def encIntegralReal (n : Int) : Bytes := fmtG16Int n
 
 /-- exact value of a decimal integer text (`-`? digit+); `none` for anything else -/
 def intTextValue : Bytes → Option Int
   | 45 :: ds => if ds ≠ [] ∧ ds.all isDigit = true then some (-(decVal ds : Int)) else none
   | ds => if ds ≠ [] ∧ ds.all isDigit = true then some (decVal ds : Int) else none
+
+/-- **Exact value of a decimal text** `-?digits[.digits][e[+-]digits]` as `(m, e)`, meaning `m · 10^e`; `none` for any other text.  This is the
+mathematical value a correctly rounded `strtod` rounds to a double.  Definition only; tied to glibc's `strtod` by sampling: the driver evaluates it on the
+text of every finite vector value of every case, and the check compares the correctly rounded double of `m · 10^e` with the bits the real reader delivered
+(field `dec`). -/
+def parseDec (t : Bytes) : Option (Int × Int) :=
+  let neg := t.head? = some 45
+  let u := if neg then t.drop 1 else t
+  let ip := u.takeWhile isDigit
+  let r1 := u.drop ip.length
+  let fp := match r1 with
+    | 46 :: r => r.takeWhile isDigit
+    | _ => []
+  let r2 := match r1 with
+    | 46 :: r => r.drop fp.length
+    | r => r
+  let ex : Option Int := match r2 with
+    | [] => some 0
+    | 101 :: 43 :: ds => if ds ≠ [] ∧ ds.all isDigit = true then some (decVal ds : Int) else none
+    | 101 :: 45 :: ds => if ds ≠ [] ∧ ds.all isDigit = true then some (-(decVal ds : Int)) else none
+    | 101 :: ds => if ds ≠ [] ∧ ds.all isDigit = true then some (decVal ds : Int) else none
+    | _ => none
+  if ip = [] then none else
+    ex.map (fun e => ((if neg then -1 else 1) * (decVal (ip ++ fp) : Int), e - (fp.length : Int)))
 
 /-- the integers of the `Options` block in file order -/
 def optInts (opts : List Int) (ncons nd nvars np : Nat) : List Int :=
